@@ -286,12 +286,12 @@ impl LintRule for Spy {
     log.file_dir = ctx.file_ignore_directive().map(|f| SpyDir {
       start: f.range().start.as_byte_index(base),
       line: ti.line_index(f.range().start),
-      codes: f.codes().keys().cloned().collect(),
+      codes: f.codes().into_iter().map(|(k, _)| k.clone()).collect(),
     });
     log.line_dirs = ctx
       .line_ignore_directives()
       .iter()
-      .map(|(l, d)| (*l, SpyDir { start: d.range().start.as_byte_index(base), line: ti.line_index(d.range().start), codes: d.codes().keys().cloned().collect() }))
+      .map(|(l, d)| (*l, SpyDir { start: d.range().start.as_byte_index(base), line: ti.line_index(d.range().start), codes: d.codes().into_iter().map(|(k, _)| k.clone()).collect() }))
       .collect();
     let mk = |c: &deno_ast::swc::common::comments::Comment| SpyComment {
       line_kind: c.kind == CommentKind::Line,
